@@ -691,7 +691,7 @@ PROPS = {
     ),
     "C02": dict(
         retry_on_failure=True,
-        suites=["c02", "c02live"],
+        suites=["c02", "c02live", "c02h3"],
         judge=judge_c02,
         level="proof",
         rule="3000 (thorough 40000) random duplex scripts: per direction 0-4 chunks (sizes 0,1,2,3,5,8) then EOF / read error / silence, "
@@ -703,14 +703,18 @@ PROPS = {
              "forwarder to a loopback origin, transports of 4 MiB and 2 KiB (the codecs block in their writes), 0 / 1 / 70000 / 300000 "
              "(1000000) patterned bytes in either or both directions, client or origin taking 700-900 bytes per read, the origin or "
              "the client ending its stream first: each side must have received exactly what the other sent, then the end of stream, "
-             "and never a reset",
+             "and never a reset."
+             " Live HTTP/3 part (suite c02h3, wall clock): the same tunnels (13 quick, 44 thorough) through the real Core::listen on a "
+             "loopback UDP port - QUIC multiplexer, HTTP/3 codec, Tunnel, direct forwarder - driven by a quiche client of the harness with "
+             "flow-control windows of 1 MiB and 8 KiB, including clients that end their stream while the origin still sends",
         explanation="theorems stream_invariant, delivered_is_prefix, credit_*, finished_complete, eof_only_when_drained, eof_after_writes, "
                     "restart_preserves, no_call_after_failure, duplex_* about TT/Model/Pipe.lean for every answer sequence",
         trusted=["cancel-safety of Source::read (scripted sources are cancel-safe; real h2/TCP sources are assumed to be)",
                  "tokio try_select / timeout semantics; a pending flush() is never cancelled in the scripts (flush delays are 0): "
                  "cancellation of a pending flush is not modelled",
-                 "real TcpForwarder / HTTP/2 / HTTP/3 endpoints are replaced by scripted ones (their sinks' partial-write contracts are the "
-                 "quota scripts); HTTP/2 WINDOW_UPDATE == consume() argument is h2's contract"],
+                 "in the scripted part real TcpForwarder / HTTP/2 / HTTP/3 endpoints are replaced by scripted ones (their sinks' partial-write "
+                 "contracts are the quota scripts); HTTP/2 WINDOW_UPDATE == consume() argument is h2's contract; the live parts run the "
+                 "real codecs but are samples, not proofs: quiche, h2 and the kernel's loopback are trusted there"],
         assumptions=[],
     ),
     "C14": dict(
